@@ -77,18 +77,37 @@ def prefilled_tables(res, roots, rnd, depth=2):
     reqs = []
     for (p, h), ml in zip(roots, legal):
         ms = parse_moves(ml)
-        k = rnd.randrange(3)
+        k = rnd.randrange(4)
         if k == 0 or not ms:
             reqs.append(f"root {p} {hist_str(h)} 1 depth {depth}")
         elif k == 1:
             m = rnd.choice(ms)
             reqs.append(("succ", p, m))
+        elif k == 2:
+            m = rnd.choice(ms)
+            reqs.append(("succ2", p, m))      # the position two plies later ("analysis stepping backwards")
         else:
             q, hq = rnd.choice(roots)
             reqs.append(f"root {q} {hist_str(hq)} 1 depth {depth}")
     succ_idx = [i for i, r in enumerate(reqs) if isinstance(r, tuple)]
     succ = successors([(reqs[i][1], reqs[i][2]) for i in succ_idx])
-    for i, s in zip(succ_idx, succ):
+    # second ply for the "succ2" requests: a random reply
+    two = [i for i, s in zip(succ_idx, succ) if reqs[i][0] == "succ2" and s not in ("PANIC", "DIED")]
+    smap = dict(zip(succ_idx, succ))
+    replies = run_hx_par(["moves " + smap[i] for i in two])
+    pick = []
+    for i, ml in zip(two, replies):
+        ms = parse_moves(ml)
+        pick.append((smap[i], rnd.choice(ms)) if ms else None)
+    succ2 = successors([x for x in pick if x is not None])
+    it2 = iter(succ2)
+    for i, x in zip(two, pick):
+        if x is not None:
+            s2 = next(it2)
+            if s2 not in ("PANIC", "DIED"):
+                smap[i] = s2
+    for i in succ_idx:
+        s = smap[i]
         reqs[i] = f"root {s} {Pos(s).hash} 1 depth {depth + 1}" if s not in ("PANIC", "DIED") else f"root {roots[i][0]} - 1 depth 1"
     outs = run_hx_par(reqs)
     tts = []
